@@ -521,6 +521,27 @@ def judge_exact(seed):
     return "exact", None
 
 
+def judge_big(seed):
+    """a query whose slab holds tens of thousands of sites (many atoms per cell, radius of a few cell edges): same statement"""
+    import random
+    from chmpy.core.element import Element
+    from chmpy.crystal import AsymmetricUnit, Crystal, SpaceGroup, UnitCell
+    rng = random.Random(seed)
+    uc = UnitCell.from_lengths_and_angles([7.0, 8.0, 9.0], [math.radians(rng.uniform(80, 100)) for _ in range(3)])
+    n = 70
+    pts = []
+    while len(pts) < n:
+        p_ = [rng.uniform(0, 1) for _ in range(3)]
+        if all(np.linalg.norm((np.array(p_) - np.array(q) + 0.5) % 1.0 - 0.5) > 0.09 for q in pts):
+            pts.append(p_)
+    els = [Element[rng.choice([1, 6, 7, 8, 16, 17])] for _ in range(n)]
+    c = Crystal(uc, SpaceGroup(2), AsymmetricUnit(els, np.array(pts)))
+    radius = rng.uniform(17.0, 19.0)
+    o = np.array([rng.uniform(0, 1) for _ in range(3)]) @ np.asarray(uc.direct)
+    r = check_air(c, radius, o)
+    return "big:triclinic", (None if r == "skip" else r), True
+
+
 def judge(seed):
     import random
     rng = random.Random(seed)
@@ -579,6 +600,15 @@ def judge(seed):
 
 
 def search(ctx, budget):
+    for _ in range(1 if budget == "quick" else 6):
+        seed = ctx.rng.randrange(1 << 30)
+        try:
+            tag, r, nontrivial = judge_big(seed)
+        except Exception as ex:  # noqa
+            tag, r, nontrivial = "big:triclinic", f"big slab query raised {type(ex).__name__}: {ex}", True
+        ctx.case({"seed": seed, "case": tag}, nontrivial=True, key="big" + str(seed))
+        if r:
+            ctx.fail("C03:big", r, {"seed": seed, "case": tag, "big": True})
     n = 240 if budget == "quick" else 2500
     for _ in range(n):
         seed = ctx.rng.randrange(1 << 30)
@@ -591,4 +621,6 @@ def search(ctx, budget):
 
 
 def replay(ctx, obj):
+    if obj["input"].get("big"):
+        return judge_big(obj["input"]["seed"])[1]
     return judge(obj["input"]["seed"])[1]
